@@ -84,7 +84,7 @@ func (k checker) one(scope string, cs Case) {
 	k.report(ps, cs)
 	nonEmpty := false
 	for _, m := range cs.Models {
-		if meshMenu[m.Mesh].n > 0 {
+		if d, _ := meshDefOf(m.Mesh); d.n > 0 {
 			nonEmpty = true
 		}
 	}
@@ -149,6 +149,15 @@ func run(c *core.Ctx) {
 	for _, m := range fullBig {
 		each("models=1/big", []ModelSpec{m})
 	}
+	// value ladder: every float32 magnitude band through every component of POSITION (and its declared
+	// min/max), NORMAL and TEXCOORD_0 of a welded two-triangle mesh and of a point cloud
+	for r := range f32Ladder {
+		each("models=1/value-ladder", []ModelSpec{{Mesh: fmt.Sprintf("V%d", r), Mat: "-", TRS: "-"}})
+		if r%3 == 0 {
+			each("models=1/value-ladder", []ModelSpec{{Mesh: fmt.Sprintf("W%d", r), Mat: "M", TRS: "T"}})
+		}
+	}
+	c.Bound("menu.meshes.value_ladder", fmt.Sprintf("%d float32 values (both zeros, subnormals, every binade, integer-width borders, decimal powers) through every attribute component of a 4-vertex mesh", len(f32Ladder)))
 	c.Bound("models=1", "complete")
 
 	// ---- 2 models, small meshes: the full product (quick: node transform and instance count are
@@ -245,7 +254,7 @@ func replay(c *core.Ctx) {
 		return
 	}
 	for _, m := range cs.Models {
-		if _, ok := meshMenu[m.Mesh]; !ok {
+		if _, ok := meshDefOf(m.Mesh); !ok {
 			c.HarnessError("unknown mesh %q", m.Mesh)
 			return
 		}
